@@ -1,7 +1,7 @@
 #!/bin/bash
 # run ALL property checks against each behaviour-preserving patch; every check must stay silent
 D="${1:-/verif/selftest/benign}"
-ALL="C01 C02 C03 C04 C05 C06 C07 C08 C09 C10 C11 C12 C13 C14 C15 C16 C17 C18"
+ALL="${ALL:-C01 C02 C03 C04 C05 C06 C07 C08 C09 C10 C11 C12 C13 C14 C15 C16 C17 C18}"
 for p in $D/*.patch; do
   out=$(/verif/bin/mutrun.sh $p $ALL 2>&1)
   if echo "$out" | grep -qE '^VIOLATION|CHECK-ERROR|PATCH-FAILED|Traceback'; then
